@@ -505,3 +505,82 @@ func TestC06OperatorTable(t *testing.T) {
 			}
 		})
 }
+
+// ---------------------------------------------------------------------------------------
+// values without any content: a host function or a host storer may hand out &variable.Value{} (no field set). What such a
+// value means is not stated; that it never makes Next panic is.
+
+type c06EmptyCase struct {
+	Context string `json:"context"`
+	Source  string `json:"source"` // function, storer
+}
+
+type emptyValueStorer struct{ *variable.InMemoryStorer }
+
+func (s emptyValueStorer) GetValue(name string) (*variable.Value, bool) {
+	if name == "void" {
+		return &variable.Value{}, true
+	}
+	return s.InMemoryStorer.GetValue(name)
+}
+
+func runC06Empty(c c06EmptyCase) Verdict {
+	e := "emptyval()"
+	if c.Source == "storer" {
+		e = "$void"
+	}
+	stmt := map[string]string{
+		"set-new":          "<<set $fresh to " + e + ">>",
+		"set-existing":     "<<set $k1 to " + e + ">>",
+		"compound":         "<<set $k1 += " + e + ">>",
+		"declare":          "<<declare $fresh2 = 1>>\n<<set $fresh2 to " + e + ">>",
+		"line":             "shown {" + e + "} here",
+		"if":               "<<if " + e + ">>\n    in if\n<<endif>>",
+		"option-text":      "-> one {" + e + "}\n-> two",
+		"option-condition": "-> one <<if " + e + ">>\n-> two",
+		"jump":             "<<jump {" + e + "}>>",
+		"command":          "<<c0 a {" + e + "}>>",
+		"command-name":     "<<{" + e + "} a>>",
+		"call-argument":    "<<call pn(\"x\", " + e + ")>>",
+		"operand":          "<<set $k1 to 1 + " + e + ">>",
+		"comparison":       "<<set $f1 to " + e + " == " + e + ">>",
+		"not":              "<<set $f1 to not " + e + ">>",
+		"builtin":          "{string(" + e + ")} {number(" + e + ")} {bool(" + e + ")}",
+	}[c.Context]
+	src := "title: A\n---\nbefore\n" + stmt + "\nafter {$k1}\n<<jump A>>\n===\n"
+	storer := emptyValueStorer{variable.NewInMemoryStorer()}
+	storer.SetNumberValue("k1", 1)
+	storer.SetBooleanValue("f1", true)
+	dr, err := ysgo.NewDialogueRunner(storer, "abc", strings.NewReader(src))
+	if err != nil {
+		return failf("script does not load: %v\n%s", err, src)
+	}
+	h := &host{dr: dr, storer: newRecStorer()}
+	h.register()
+	dr.AddFunction("emptyval", func([]*variable.Value) (*variable.Value, error) { return &variable.Value{}, nil })
+	for i := 0; i < 10; i++ {
+		arg := hostileArgs[i%len(hostileArgs)]
+		if h.lastOpt > 0 {
+			arg = i % h.lastOpt
+		}
+		if ev := h.step(arg); ev.K == "panic" {
+			return failf("a value without content from a host %s, used as %s: call %d panicked: %s\nscript:\n%s\ntrace:\n%s", c.Source, c.Context, i+1, ev.Text, src, showTrace(h.trace))
+		}
+	}
+	return Verdict{NonTrivial: true, Classes: []string{"source=" + c.Source}}
+}
+
+var c06Empty = Register(Prop[c06EmptyCase]{ID: "C06", Name: "values-without-content", Run: runC06Empty})
+
+func TestC06ValuesWithoutContent(t *testing.T) {
+	Enumerate(t, c06Empty, true, "a &variable.Value{} from a host function and from a host storer in 16 contexts (set of a new and of an existing variable, compound set, line, if, option text and condition, jump, command word and name, call argument, operand, comparison, not, conversion built-ins), two laps each",
+		func(yield func(c06EmptyCase) bool) {
+			for _, source := range []string{"function", "storer"} {
+				for _, ctx := range []string{"set-new", "set-existing", "compound", "declare", "line", "if", "option-text", "option-condition", "jump", "command", "command-name", "call-argument", "operand", "comparison", "not", "builtin"} {
+					if !yield(c06EmptyCase{Context: ctx, Source: source}) {
+						return
+					}
+				}
+			}
+		})
+}
